@@ -3,7 +3,8 @@
 # plus a replace of the qryn module by /repo's working tree.
 set -e
 REPO=${VERIF_REPO:-/repo}
-H=/verif/harness
+V=$(cd "$(dirname "$0")/.." && pwd)
+H=$V/harness
 tmp=$(mktemp)
 {
   sed -e 's|^module github.com/metrico/qryn$|module verif/harness|' "$REPO/go.mod"
